@@ -176,6 +176,16 @@ def rule_sf4(ctx: Ctx) -> List[Ob]:
             ok = len(parts) == len(want[a]) and all(scaled(p, w) for p, w in zip(parts, want[a]))
         obs.append(ob("SF4", "accessor returns cache * scaling_factor", f, rets[0] if rets else f.node, ok,
                       f"returns {short(rets[0].value) if rets else '?'}", construct=f"{a}: return value"))
+    for q, f in sorted(ctx.repo.funcs.items()):
+        if not q.startswith(CLS + "."):
+            continue
+        for s in walk_no_nested(f.node):
+            if isinstance(s, (ast.Assign, ast.AugAssign)):
+                for t in (s.targets if isinstance(s, ast.Assign) else [s.target]):
+                    if src(t) in ("self.f", "self.g") and "scaling_factor" in src(s.value):
+                        obs.append(ob("SF4", "the factor is never folded into the cache", f, s, False,
+                                      f"{short(s)}: the cached value is scaled when stored and again when returned; "
+                                      "a factor changed later is applied to a value cached under the old one"))
     return obs
 
 
